@@ -61,10 +61,10 @@ def include_number_surface(ck, facts, tier):
     with `+` from zero (C19 R19.4), and from Python every operator goes through the `#[pymethods]` wrappers (R18.4). The AD and naming properties hold for a
     user only if those layers pass operands through unchanged, so C01, C02, C03 and C19 include these rules."""
     from rules import c18, c19, pywrap
-    if getattr(ck, "_surface_done", False) or not _admits(ck, {"R18.3", "R18.4", "R19.4", "R19.2"}):
+    if getattr(ck, "_surface_done", False) or not _admits(ck, {"R18.1", "R18.2", "R18.3", "R18.4", "R19.4", "R19.2"}):
         return          # (inside a restriction that mutes these rules nothing would be recorded: leave the flag for the caller that does want them)
     ck._surface_done = True
-    with ck.restrict({"R18.3"}):
+    with ck.restrict({"R18.1", "R18.2", "R18.3"}):          # R18.1/R18.2: tagging a float at an order and converting between kinds keep value, names and gradients
         _quiet(ck, lambda: c18.run(ck, facts, tier))
     with ck.restrict({"R19.4", "R19.2"}):          # sums; abs (its branches negate value, gradient and Hessian together)
         _quiet(ck, lambda: c19.run(ck, facts, tier))
